@@ -27,7 +27,8 @@ def models():
 
 # ---------------- reference lexers (independent of the Coq ones; documented rules of the engines)
 def lex_std(q, text):
-    assert text[0] == q
+    if not text or text[0] != q:
+        return None          # not a string literal of this dialect at all
     i, out = 1, []
     while i < len(text):
         c = text[i]
@@ -43,7 +44,8 @@ ESC = {"n": "\n", "t": "\t", "r": "\r", "0": "\0", "b": "\b", "Z": "\x1a", "\\":
 
 
 def lex_bs(q, text):
-    assert text[0] == q
+    if not text or text[0] != q:
+        return None          # not a string literal of this dialect at all
     i, out = 1, []
     while i < len(text):
         c = text[i]
